@@ -130,6 +130,8 @@ def closure(nodes):
         k = t[0]
         if k in ("alias",):
             todo.append(t[2])
+        elif k == "ualias":
+            todo.append(M.UALIAS[t[1]])
         elif k == "fwd":
             todo.append(t[1])
         elif k == "any" and t[1] is not None:
